@@ -83,7 +83,7 @@ def discharge(goals, timeout_s=20, workers=None, use_cvc5=True, both=False, seed
             g.time = 0.0
     with ProcessPoolExecutor(max_workers=workers) as ex:
         for stage in stages:
-            open_ = [g for g in todo if g.status != "unsat"]
+            open_ = [g for g in todo if g.status not in ("unsat", "sat")]     # a model is a definitive answer
             if stage == "cvc5" and both:
                 open_ = todo
             if not open_:
